@@ -80,6 +80,9 @@ func init() {
 		Technique: "exhaustive enumeration of the complete finite input space (every N, T, member) of the real ChunkSlice / VBucketDiscovery.Get against a reference partition",
 		Rule:      "every (N,T) with 1<=T<=N<=Nmax through helpers.ChunkSlice, and every (T, member) for N in {64,128,1024} through the real static-membership VBucketDiscovery.Get(); a case is non-trivial when T>1 (more than one chunk)",
 		Assume:    []string{"pure sequential code, no environment"},
+		Instances: func(tier string) []Instance {
+			return []Instance{{Scenario: "c09_regets", Params: mustJSON(struct{}{}), Bound: 0, Shards: 2, Note: "one discovery object asked three times while the numbering changes (dynamic membership through the bus)"}}
+		},
 		Pure: func(tier string) *PureResult {
 			res := &PureResult{Exhaustive: true}
 			nmax := 1024
